@@ -3,8 +3,8 @@
 From Coq Require Import Ascii String List NArith.
 Import ListNotations.
 Require Import Laze.model.Base Laze.model.Env Laze.model.Allow Laze.model.Ninja Laze.model.Ctx
-        Laze.model.Resolver Laze.model.Generate Laze.model.Checks
-        Laze.proofs.ResolverFacts Laze.proofs.GenerateFacts.
+        Laze.model.Resolver Laze.model.Generate Laze.model.Checks Laze.model.Load
+        Laze.proofs.ResolverFacts Laze.proofs.GenerateFacts Laze.proofs.ResolverTotal Laze.proofs.LoadKeys.
 Open Scope list_scope.
 
 (* The resolver, for every lookup function, provider map, disabled set, fuel and app: if it
@@ -63,3 +63,25 @@ Theorem C01_configured_only_if : forall H EV b le builder binary select disable 
     bi_builder info = c_name bctx /\ bi_binary info = m_name binary.
 Proof. exact configure_build_inv. Qed.
 Print Assumptions C01_configured_only_if.
+
+(* The resolver terminates within its fuel (it never answers Fuel): along one path of the recursion
+   every module that is entered is a new name among the modules of the bag, so the depth is bounded
+   by their number; rollbacks do not add depth.  For every bag whose module keys are their names
+   (what the loader builds), every builder, every binary of the bag, every command line. *)
+Theorem C01_resolver_terminates : forall b builder bname binary cli_selects disabled0,
+  keys_okb b = true -> In (m_name binary) (map m_name (all_modules b)) ->
+  resolve_build b builder bname binary cli_selects disabled0 <> Fuel.
+Proof. exact resolve_build_terminates. Qed.
+Print Assumptions C01_resolver_terminates.
+
+(* ... and for every bag that comes out of the loader no side condition is left: the loader stores
+   every module under its own name (load_keys_ok) *)
+Theorem C01_resolver_terminates_loaded : forall t pf bd b builder bname binary cli_selects disabled0,
+  load t pf bd = Ok b -> In binary (all_modules b) ->
+  resolve_build b builder bname binary cli_selects disabled0 <> Fuel.
+Proof. exact resolver_terminates_loaded. Qed.
+Print Assumptions C01_resolver_terminates_loaded.
+
+Theorem C01_loaded_keys_ok : forall t pf bd b, load t pf bd = Ok b -> keys_okb b = true.
+Proof. exact load_keys_ok. Qed.
+Print Assumptions C01_loaded_keys_ok.
